@@ -288,6 +288,8 @@ var f3Shapes = []struct {
 	// getters of the members: value receiver Name(), POINTER receiver PName() (ext.G) against plain fields
 	{"gdst", "GD", false},
 	// a LOCAL name for an imported struct type: its unexported members stay ext's (input round; 5b1f0a7)
+	// a destination the package cannot see INTO at all (round 5, C04-m9 / C05-m10): nothing to copy member-wise, still accounted for
+	{"extOpaque", "ext.Opaque", true},
 	{"rowExt", "RowE", true},
 	{"rowExt3", "RowE3", true},
 }
@@ -465,6 +467,7 @@ type D struct {
 	Y string
 	N N
 	M N3
+	O ext.Opaque
 	Q N
 }
 
@@ -484,7 +487,7 @@ func Any2I(v interface{}) int {
 }
 `
 
-var f4Dst = []string{"X", "Y", "N.A", "M.A", "Q.A", "N", "Zz", "x"}
+var f4Dst = []string{"X", "Y", "N.A", "M.A", "Q.A", "N", "Zz", "x", "O", "M"}
 var f4Src = []string{"A", "N.A", "G()", "GN().A", "P.A", "E", "Emb.E", "GE()", "B", "g", "Zz", "$1.A", "$2", "$3.A", "$1.G()", "$0", "$9", "$2.A", "V()", "GP().A", "a", "N", "$1.N", "GEN().A", "P", "GN().PA()", "N.PA()", "Lab()",
 	"$3.G()", "$3.PG()", "$3.GE()", "$3.GAA().A", "$3.GAA().PG()", "$3.Two()", "$3.Arg()", "$3.G", "$3.A()", "$4.X", "$4.y", "$4.Y()", "$3.GE().A"}
 var f4Conv = []string{"I2I", "P2I", "I2IE", "I2S", "N2N", "ext.Itoa", "Other", "Missing", "PT2I", "Any2I", "Vsum", "ext.hidden"}
@@ -615,6 +618,19 @@ func familyF4(thorough bool) []*scen.Cell {
 	scen.Odometer([]int{len(pats), 2, 2, len(comp)}, func(d []int) {
 		notes := append([]string{":skip " + pats[d[0]]}, comp[d[3]]...)
 		add(f4Cell("f4skip_"+scen.DigitsID(d), "skip", notes, 0, 0, d[2], d[1], nil))
+		if d[3] != 0 {
+			// round 5 (C06-m10): the same notations NOT written as one block - prose and an empty comment line between them
+			gap := append([]string{notes[0], "everything else is copied by name;", ""}, notes[1:]...)
+			gap = append(gap, "", "see the design notes.")
+			add(f4Cell("f4skipgap_"+scen.DigitsID(d), "skip", gap, 0, 0, d[2], d[1], nil))
+		}
+		if d[3] == 0 && d[1] == 0 {
+			// round 5 (C02-m9): sibling methods with :skip lists of their own, one sorting before and one after the method under test
+			add(f4Cell("f4skipsib_"+scen.DigitsID(d), "skip", notes, 0, 0, d[2], d[1], []scen.MethodDecl{
+				{Notations: []string{":skip Y", ":skip Q"}, Sig: "Aother(*S) *D"},
+				{Notations: []string{":skip /^N/"}, Sig: "Zother(*S) *D"},
+			}))
+		}
 		if d[1] == 1 && d[3] == 0 {
 			// the :skip line written BEFORE the :case:off line: the method's (final) case rule still governs it
 			c := f4Cell("f4skipfirst_"+scen.DigitsID(d), "skip", append(notes, ":case:off"), 0, 0, d[2], 0, nil)
